@@ -126,6 +126,18 @@ class Interp:
         self.found = {}  # constraint name -> Mono | UNKNOWN
         self.depth = 0
 
+    def module_consts(self):
+        if not hasattr(self, "_mconsts"):
+            self._mconsts = {}
+            for st in self.tree.body:
+                if isinstance(st, ast.Assign) and len(st.targets) == 1 and isinstance(st.targets[0], ast.Name):
+                    v = st.value
+                    if isinstance(v, ast.Constant) and isinstance(v.value, (int, float)) and not isinstance(v.value, bool):
+                        self._mconsts[st.targets[0].id] = self.lit(v)
+                    elif isinstance(v, ast.Constant) and isinstance(v.value, str):
+                        self._mconsts[st.targets[0].id] = v.value
+        return self._mconsts
+
     def lit(self, node):
         txt = ast.get_source_segment(self.src, node)
         try:
@@ -143,7 +155,11 @@ class Interp:
                 return node.value
             return UNKNOWN
         if isinstance(node, ast.Name):
-            return env.get(node.id, UNKNOWN)
+            if node.id in env:
+                return env[node.id]
+            # a module-level numeric constant of the site file (`_PRIMARY_V = 277`)
+            g = self.module_consts()
+            return g.get(node.id, UNKNOWN)
         if isinstance(node, ast.BinOp):
             return _binop(node.op, self.ev(node.left, env), self.ev(node.right, env))
         if isinstance(node, ast.UnaryOp) and isinstance(node.op, ast.USub):
